@@ -150,6 +150,7 @@ class Builder:
         start = self.g.new("join", note="body")
         self.g.edge(self.g.entry, start)
         self.try_nodes_stack: List[List[Node]] = []
+        self.flag_defs = _flag_definitions(fnode) if not isinstance(fnode, ast.Lambda) else {}
         ends = self._block(body, [start], _Frame())
         for e in ends:
             self.g.edge(e, self.g.exit)
@@ -214,6 +215,16 @@ class Builder:
             n = self._new("stmt", s, frame, stmt=s, note="opaque")
             self._connect(preds, n)
             return [n]
+        if id(s) in getattr(self, "flag_defs", {}):
+            # flag = bool(E) / flag = E with the flag read only as a test: `if E: flag = True else: flag = False`
+            cond = self.flag_defs[id(s)]
+            yes = ast.Assign(targets=[ast.Name(id=s.targets[0].id, ctx=ast.Store())], value=ast.Constant(True), type_comment=None)
+            no = ast.Assign(targets=[ast.Name(id=s.targets[0].id, ctx=ast.Store())], value=ast.Constant(False), type_comment=None)
+            s2 = ast.If(test=cond, body=[yes], orelse=[no])
+            for n_ in (yes, no, s2):
+                ast.copy_location(n_, s)
+                ast.fix_missing_locations(n_)
+            s = s2
         if isinstance(s, ast.If):
             if self.drop_verbose and _is_print_only(s.body) and _is_print_only(s.orelse):
                 return preds
@@ -356,6 +367,89 @@ class Builder:
                 for e in xe:
                     g.edge(e, g.raise_exit)
         return ends
+
+
+def _flag_definitions(fnode) -> dict:
+    """id(assignment) -> condition, for `flag = bool(E)` and `flag = <comparison / and / or / not>` where every read
+    of ``flag`` is a truth test (an `if` / `while` / conditional-expression test, possibly under and / or / not, or
+    inside the definition of another such flag) and every other definition of it is a literal True / False.
+    Such a flag is observable only through its truth value, so the assignment is the two-armed `if` it
+    abbreviates; written that way the path explorer's constant propagation follows it."""
+
+    def scope(n):
+        for c in ast.iter_child_nodes(n):
+            if isinstance(c, (ast.FunctionDef, ast.AsyncFunctionDef, ast.ClassDef, ast.Lambda)):
+                continue
+            yield c
+            yield from scope(c)
+
+    def shape(v):
+        if isinstance(v, ast.Call) and isinstance(v.func, ast.Name) and v.func.id == "bool" and len(v.args) == 1 and not v.keywords:
+            return v.args[0]
+        if isinstance(v, (ast.Compare, ast.BoolOp)) or (isinstance(v, ast.UnaryOp) and isinstance(v.op, ast.Not)):
+            return v
+        return None
+
+    nodes = list(scope(fnode))
+    cands, other_defs = {}, {}
+    for n in nodes:
+        if isinstance(n, ast.Assign) and len(n.targets) == 1 and isinstance(n.targets[0], ast.Name):
+            c = shape(n.value)
+            if c is not None:
+                cands.setdefault(n.targets[0].id, []).append((n, c))
+                continue
+            if isinstance(n.value, ast.Constant) and isinstance(n.value.value, bool):
+                continue
+    if not cands:
+        return {}
+    for n in nodes:
+        if isinstance(n, ast.Name) and isinstance(n.ctx, (ast.Store, ast.Del)) and n.id in cands:
+            other_defs[n.id] = other_defs.get(n.id, 0) + 1
+    params = {a.arg for a in fnode.args.posonlyargs + fnode.args.args + fnode.args.kwonlyargs}
+    # plain definitions that are neither a candidate nor a boolean literal disqualify the name
+    good_defs = {}
+    for n in nodes:
+        if isinstance(n, ast.Assign) and len(n.targets) == 1 and isinstance(n.targets[0], ast.Name) and n.targets[0].id in cands:
+            if shape(n.value) is not None or (isinstance(n.value, ast.Constant) and isinstance(n.value.value, bool)):
+                good_defs[n.targets[0].id] = good_defs.get(n.targets[0].id, 0) + 1
+    names = {k for k in cands if good_defs.get(k, 0) == other_defs.get(k, 0) and k not in params}
+    # reads in test position
+    in_test = set()
+
+    def mark(e):
+        if isinstance(e, ast.BoolOp):
+            for v in e.values:
+                mark(v)
+        elif isinstance(e, ast.UnaryOp) and isinstance(e.op, ast.Not):
+            mark(e.operand)
+        elif isinstance(e, ast.Name):
+            in_test.add(id(e))
+
+    for n in nodes:
+        if isinstance(n, (ast.If, ast.While, ast.IfExp, ast.Assert)):
+            mark(n.test)
+    changed = True
+    while changed:
+        changed = False
+        marked = set(in_test)
+        for k in names:
+            for _, c in cands[k]:
+                mark(c)
+        for k in sorted(names):
+            loads = [n for n in nodes if isinstance(n, ast.Name) and n.id == k and isinstance(n.ctx, ast.Load)]
+            if not loads or any(id(n) not in in_test for n in loads):
+                names.discard(k)
+                in_test.clear()
+                in_test.update(marked)
+                changed = True
+                break
+    # nested scopes reading the flag see it as a value
+    for n in ast.walk(fnode):
+        if isinstance(n, (ast.FunctionDef, ast.AsyncFunctionDef, ast.Lambda)) and n is not fnode:
+            for x in ast.walk(n):
+                if isinstance(x, ast.Name) and x.id in names:
+                    names.discard(x.id)
+    return {id(n): c for k in names for n, c in cands[k]}
 
 
 def build_cfg(fnode, name="", opaque=None, drop_verbose=True) -> CFG:
